@@ -369,6 +369,7 @@ def c15(ctx, rep):
     _r(spelling.rule_rewrite_invariance, ctx, rep)
     _r(spelling.rule_padding_invariance, ctx, rep)
     _r(spelling.rule_move_subroutines, ctx, rep)
+    _r(spelling.rule_spelled_programs, ctx, rep)
 
 
 from .rules import regex_rules  # noqa: E402
